@@ -51,7 +51,8 @@ THEOREMS = [
     "time_cache_invisible",
     "pv_cache_invisible", "pv_read_current", "pv_read_linked_current", "pv_set_current", "raw_result_private",
     "c08_key_ignores_shape_refuted", "c08_result_aliases_cache_refuted", "c08_arg_made_readonly_refuted",
-    "c08_view_write_stale_refuted", "c08_object_cache_handout_refuted", "c08_time_cache_ignores_fmt_refuted",
+    "c08_view_write_stale_refuted", "c08_object_cache_handout_refuted", "c08_scalar_key_by_value_refuted",
+    "c08_time_cache_ignores_fmt_refuted",
 ]
 
 REQ = "From Verif Require Import Model.C08_Cache."
@@ -67,6 +68,8 @@ QUIRK_BITS = [
      "item assignment through a slice (view) of a position does not invalidate the cache of its base, and vice versa"),
     (4, "c08_object_cache_handout",
      "p.llh / p.distance / p.enu2trs return the _cache entry itself: writing into it changes what p and its dependents return later"),
+    (5, "c08_scalar_key_by_value",
+     "lat/lon of a single position reach enu2trs/trs2enu as numpy scalars and are memo keys compared by value: -0.0 gets the entry of +0.0"),
 ]
 
 # ------------------------------------------------------------------------------------------ arrays <-> terms
@@ -616,6 +619,19 @@ def scenarios(thorough):
                [("Slice", 0, 1, 5), ("Slice", 0, 2, 5), ("Slice", 1, 1, 6), ("Conv", 0), ("Conv", 5), ("Read", 0, 1),
                 ("Read", 5, 1), ("SetRow", 0, W(V2)), ("SetRow", 5, W(V2)), ("SetRow", 1, W(V2)), ("SetRow", 6, W(V0)),
                 ("WriteRes", C_FILL)]))
+    # Z: equal by value, different bit patterns: +0.0 / -0.0 in a coordinate (antimeridian y = +-0, lat/lon = +-0); NaN
+    zp, zn = [-6.0e6, 0.0, 1.0e5], [-6.0e6, -0.0, 1.0e5]
+    sc.append(("zero",
+               [("NewArr", 0, A(zp)), ("NewArr", 1, A(zn)), ("NewPos", 2, 1, A(zp)), ("NewPos", 3, 1, A(zn)),
+                ("NewPos", 4, 1, A([zp])), ("NewPos", 5, 1, A([zn])), ("NewArr", 6, A([float("nan"), 1.0e6, 2.0e6]))],
+               [("Raw", 1, 0, 0), ("Raw", 1, 0, 1), ("Conv", 2), ("Conv", 3), ("Conv", 4), ("Conv", 5), ("Read", 2, 5), ("Read", 3, 5),
+                ("Raw", 1, 0, 6), ("WriteRes", C_FILL)]))
+    lp, ln, lm = [0.0, -0.0, 10.0], [-0.0, 0.0, 10.0], [0.0, 0.0, 10.0]
+    sc.append(("zero2",
+               [("NewArr", 0, A(lp)), ("NewArr", 1, A(ln)), ("NewPos", 2, 2, A(lp)), ("NewPos", 3, 2, A(ln)),
+                ("NewPos", 4, 2, A([lp])), ("NewPos", 5, 2, A([ln])), ("NewArr", 6, A([lm]))],
+               [("Raw", 2, 0, 0), ("Raw", 2, 0, 1), ("Rot", 3, 0), ("Rot", 3, 1), ("Rot", 4, 6), ("Conv", 2), ("Conv", 3),
+                ("Read", 2, 5), ("Read", 3, 5), ("Read", 4, 6), ("Read", 5, 6)]))
     # G: several dependents of one `other`, some of them garbage collected (slot re-bound) before `other` is mutated
     sc.append(("deps",
                [("NewPos", 0, 1, A(V0)), ("NewPos", 1, 1, A(V1)), ("NewPos", 3, 1, A([V0])), ("NewPos", 4, 2, A(L1)),
@@ -983,7 +999,7 @@ def _run(ctx, srv):
     open_bits = sum(1 << bit for bit, fid, _ in QUIRK_BITS
                     if any(k.get("id") == fid and k.get("status", "open") == "open" for k in ctx.known))
     # ... and among equally small sets those with fewer LRU-level quirks (bits 0-2), which the proposed fix removes
-    order = sorted(range(1, 32), key=lambda n: (0 if n & ~open_bits == 0 else 1, bin(n).count("1"), bin(n & 7).count("1"), n))
+    order = sorted(range(1, 64), key=lambda n: (0 if n & ~open_bits == 0 else 1, bin(n).count("1"), bin(n & 7).count("1"), n))
     cand = emit.lst(str(n) for n in order)
     shards, index = [], []
     for i in range(0, len(good), shard_size):
